@@ -40,3 +40,74 @@ package rueidis
 //@   ensures [C22 same-az-first] (exists k int :: startIdx <= k && k < len(nodes) && k < 255 && nodes[k].AZ == clientAZ) ==> (result != -1 && nodes[result].AZ == clientAZ)
 //@   ensures [C22 any-node-fallback] len(nodes) > startIdx ==> result != -1
 //@   ensures [C22 none] len(nodes) <= startIdx ==> result == -1
+
+// ---------------------------------------------------------------------------------------------
+// C13 — RESP decoding never panics and never allocates far beyond the bytes received (resp.go).
+// Safety-only contracts: no precondition on the byte stream at all. `alloc-bound` is the largest
+// element count a single make() may request before the corresponding bytes have been read.
+
+//@ func readI
+//@   safety C13
+//@   modifies *
+
+//@ func readS
+//@   safety C13
+//@   modifies *
+
+//@ func readB
+//@   safety C13
+//@   option alloc-bound=1048576
+//@   modifies *
+
+//@ func readN
+//@   requires length >= 0
+//@   safety C13
+//@   option alloc-bound=1048576
+//@   modifies *
+
+//@ func readE
+//@   safety C13
+//@   option alloc-bound=1048576
+//@   modifies *
+
+//@ func readA
+//@   safety C13
+//@   option alloc-bound=1048576
+//@   modifies *
+
+//@ func readSimpleString
+//@   safety C13
+//@   modifies *
+
+//@ func readBlobString
+//@   safety C13
+//@   option alloc-bound=1048576
+//@   modifies *
+
+//@ func readInteger
+//@   safety C13
+//@   modifies *
+
+//@ func readBoolean
+//@   safety C13
+//@   modifies *
+
+//@ func readNull
+//@   safety C13
+//@   modifies *
+
+//@ func readArray
+//@   safety C13
+//@   modifies *
+
+//@ func readMap
+//@   safety C13
+//@   modifies *
+
+//@ func readNextMessage
+//@   safety C13
+//@   modifies *
+
+//@ func streamTo
+//@   safety C13
+//@   modifies *
